@@ -60,4 +60,69 @@ var checks = map[string]Check{
 			return js
 		},
 	},
+	"C01": {
+		Level:       "model_checking",
+		Rule:        "stateless DFS over all interleavings (preemption bound) of 2-3 concurrent Call/AsyncCall/Push operations (one session, both directions, two sessions) with tagged bodies+metadata of different lengths; the full (protocol x body codec x filter pipe) product at bound 0, selected configurations deeper; oracles: result/handler input/metadata agree with the sender's tag, handler inputs stable across a yield, multiset of handled = multiset sent",
+		Assumptions: baseAssumptions,
+		Jobs: func(tier string) []Job {
+			var js []Job
+			for _, pr := range []string{"raw", "json", "pb", "thrift"} {
+				for _, bd := range []string{"json", "plain", "plainnamed", "protobuf", "form", "xml"} {
+					for _, pp := range []string{"none", "g", "m", "gm"} {
+						b := 0
+						if tier == "thorough" {
+							b = 1
+						}
+						j := sched("c01", fmt.Sprintf("proto=%s,body=%s,pipe=%s,k=2", pr, bd, pp), b, 1)
+						if tier == "thorough" {
+							j.Shards = 4
+							j.Budget = 120
+						}
+						js = append(js, j)
+					}
+				}
+			}
+			deep := []string{"proto=raw,body=json,k=2"}
+			if tier == "thorough" {
+				deep = []string{"proto=raw,body=json,k=2", "proto=raw,body=plainnamed,k=2", "proto=raw,body=form,k=2,pipe=g", "proto=raw,body=json,shape=S2,k=1", "proto=raw,body=json,shape=S3", "proto=raw,body=plain,op=callpush,k=2", "proto=raw,body=protobuf,op=async,k=2"}
+			}
+			for _, d := range deep {
+				j := sched("c01", d, 1, 16)
+				if tier == "thorough" {
+					j.Bound = 2
+					j.Budget = 600
+				}
+				js = append(js, j)
+			}
+			return js
+		},
+	},
+	"C08": {
+		Level:       "model_checking",
+		Rule:        "stateless DFS over all placements (interleavings up to the preemption bound) of Session.Close / Peer.Close relative to handler entry, handler steps, reply write and reply arrival, for a call in flight inbound, outbound or both; event order is part of the explored state; oracle from the event log",
+		Assumptions: baseAssumptions,
+		Jobs: func(tier string) []Job {
+			var js []Job
+			dirs := []string{"in", "out"}
+			if tier == "thorough" {
+				dirs = []string{"in", "out", "both"}
+			}
+			for _, d := range dirs {
+				for _, c := range []string{"session", "peer"} {
+					j := sched("c08", fmt.Sprintf("dir=%s,closer=%s,yields=1", d, c), 1, 8)
+					if c == "peer" {
+						j.Shards = 16
+					}
+					if tier == "thorough" {
+						j.Bound = 2
+						j.Shards = 16
+						j.Budget = 900
+						j.Params = fmt.Sprintf("dir=%s,closer=%s,yields=2", d, c)
+					}
+					js = append(js, j)
+				}
+			}
+			return js
+		},
+	},
 }
